@@ -26,6 +26,8 @@ class BuildCommand(object):
     def create(cls, commands: Optional[list[str]], location: Optional[str],
                deduplicated_build_commands: dict["BuildCommand", "BuildCommand"]
                ) -> Optional["BuildCommand"]:
+        # a list item without a value (None) passes schema validation
+        commands = [cmd for cmd in commands or [] if cmd is not None]
         if not commands:
             return None
 
